@@ -272,6 +272,27 @@ CHECKS = {
             'deterministic simulation: reply-order schedule search + '
             'responder/requester fault injection, per-request response '
             'accounting', 'DESIGN.md 4 C14'),
+    'C16': ('c16_signatures',
+            'Scope-limited to what has a peer, a wire or a clock in it: a '
+            'real asyncssh server verifies publickey authentication requests '
+            'produced by an independent signer (RefPeer + PyCA) for every key '
+            'type and signature algorithm RefPeer implements (ed25519, RSA '
+            'with SHA-1/256/512, ECDSA P-256/P-384) and OpenSSH user '
+            'certificates built field by field, each sent unedited or with '
+            'exactly one alteration (a byte of the signature or certificate, '
+            'the algorithm name in the signature, the signed user or session '
+            'id, the signing key, trailing data), with type, validity window '
+            'around the simulated wall clock (which steps between requests), '
+            'principals, an unknown critical option and an untrusted CA. '
+            'SUCCESS iff unedited and valid at the simulated instant. Host '
+            'key signatures and host certificates are decided by C03/C04.',
+            COMMON_NOTE + ' NOT decided here: the detached SSHSIG / '
+            'allowed-signers clause and direct verify() calls outside a '
+            'connection (pure input->output, no schedule, fault or peer); '
+            'ed448, sk-* and X.509 keys.',
+            'deterministic simulation: credential-alteration fault injection '
+            'by an independent signer, simulated wall clock, validity model',
+            'DESIGN.md 4 C16'),
     'C19': ('c19_streams',
             'A server-side process writes drawn stdout/stderr streams (bytes '
             'or UTF-8 text over an alphabet containing the separators and '
